@@ -21,6 +21,6 @@ Your task: make ONE realistic change to the library's non-test Go source in {wt}
 
 Deliverables, all inside {wt}:
 1. the source change itself (leave it applied in the worktree; do not commit);
-2. `seed_demo_test.go` files (new test file(s), package-level placement of your choice, names starting with `seed_demo`) or a small program under `{wt}/seed_demo/` that FAILS with your change and PASSES without it - verify both directions yourself (use `git stash` / `git stash pop` inside {wt} only, or apply/revert your patch) and say exactly which command you ran;
+2. `seed_demo_test.go` files (new test file(s), package-level placement of your choice, names starting with `seed_demo`) or a small program under `{wt}/seed_demo/` that FAILS with your change and PASSES without it - verify both directions yourself (NEVER use `git stash` (the stash is shared between all worktrees of the repository and other people are working in sibling worktrees): save your change with `git diff > /tmp/{wt.split("/")[-1]}-scratch/p.diff`, revert with `git apply -R`, re-apply with `git apply`) and say exactly which command you ran;
 3. `SEED_NOTES.md`: which clause of the property the change breaks, what exactly is needed for it to manifest (input/sequence/boundary), why the existing tests do not notice, and the output of the demo with and without the change.
 Finally print `git -C {wt} diff` (source change only, excluding the demo files) in your final message. Do not describe or guess how the property might be checked by anyone else; just produce the change and the demonstration.""")
